@@ -53,7 +53,7 @@ ASSUMPTIONS = [
 T_TOL = 5e-8; P_TOL = 1.; V_TOL = 1e-6; MIX_T_TOL = 1e-6
 TOLERANCES = {
     'spec_T_P': 0.0,
-    'H_abs': '1e-6 kJ/kg * F_mass + 10 * C * 1e-6 K; (T,H) is solved in P to P_tol: a larger residual is accepted iff H_spec and H_stream lie between the (T,P)-flash enthalpies at P -/+ 10 P_tol',
+    'H_abs': '1e-6 kJ/kg * F_mass + 10 * C * 1e-6 K; (T,H) is solved in P to P_tol = 1 Pa: a larger residual is accepted iff it is <= 10 * P_tol * |H_V - H_L| / |P_bubble - P_dew| (mean slope over the two-phase range) or H_spec and H_stream lie between the (T,P)-flash enthalpies at P -/+ 10 P_tol',
     'S_abs': '1e-6 kJ/kg/K * F_mass + 10 * (C/T) * 1e-6 K; (T,S): as for (T,H)',
     'V_point_delta_T_K': 100 * T_TOL, 'V_point_delta_P_Pa': 100 * P_TOL, 'V_point_eps': 10 * V_TOL,
     'V_flows': '10*V_tol + |V_ref(+tol) - V_ref(-tol)| over the solved variable',
@@ -93,6 +93,10 @@ def check_HS(st, action, obs):
         tol += 1e-12 * max(abs(target), abs(info['lo']), abs(info['hi']))
         err = abs(got - target)
         if not err <= tol and pair[0] == 'T':
+            Pb = info['cond_L'][1]; Pd = info['cond_V'][1]
+            if abs(Pb - Pd) > 0. and err <= tol + 10. * P_TOL * abs(info['hi'] - info['lo']) / abs(Pb - Pd):
+                st.extra['accepted_by_P_tol'] = True      # P_tol x mean slope of H(P) (S(P)) over the two-phase range, safety factor 10
+                continue
             if _within_P_resolution(st, name, target, tol):
                 st.extra['accepted_by_P_tol'] = True
                 continue
